@@ -599,7 +599,11 @@ type Machine struct {
 	// NoRestore: started with snapshot.NoRestore on an existing root: remote snapshots are neither re-mounted
 	// nor are their directories (removed by Close) recreated.
 	NoRestore bool
-	Problems  []Problem
+	// NoRestoreGone: names of the snapshots that carried the remote label when the snapshotter was started with
+	// NoRestore: Close (also an interrupted one) removed their directories on purpose and NoRestore does not bring
+	// them back, whatever happens to their labels later (Update). A name leaves the set when it is removed.
+	NoRestoreGone map[int]bool
+	Problems      []Problem
 	// harness-side bookkeeping, learnt from observations only (never from the model)
 	idOf      map[int]int // live snapshot name -> id (from the directory that appeared when it was created)
 	curOp     *Op
@@ -1013,7 +1017,13 @@ func (m *Machine) oracle(o Op, res Res, evs []Event, before map[int]WalkEnt, dir
 	}
 	// a name that cannot be a bucket name ("" / oversized) makes the commit fail with whatever error bolt has for it
 	badName := (o.Op == "prepare" && o.L.T >= BadEmpty) || (o.Op == "commit" && o.Name >= BadEmpty)
-	if res.Class == "other" && !m.Relaxed && !badName {
+	// with NoRestore, calls that need the directory of such a snapshot fail on the missing directory (Commit measures
+	// disk usage first, Prepare/View stat the parent's directory): prescribed by NoRestore, not a fault
+	goneDir := m.NoRestore && ((o.Op == "commit" && m.NoRestoreGone[o.Key]) || ((o.Op == "prepare" || o.Op == "view") && o.Parent >= 0 && m.NoRestoreGone[o.Parent]))
+	if o.Op == "remove" && res.Class == "ok" {
+		delete(m.NoRestoreGone, o.Key)
+	}
+	if res.Class == "other" && !m.Relaxed && !badName && !goneDir {
 		m.problem("", "%s failed with an unclassified error while the snapshotter is open", o.Op)
 	}
 	if o.Op == "update" && res.Class == "info" {
@@ -1223,7 +1233,7 @@ func (m *Machine) oracle(o Op, res Res, evs []Event, before map[int]WalkEnt, dir
 	want := []int{}
 	known := true
 	for n, we := range after {
-		if m.NoRestore && we.L.R {
+		if m.NoRestore && (we.L.R || m.NoRestoreGone[n]) {
 			known = false
 			continue
 		}
